@@ -1132,3 +1132,40 @@ def gen_deeptail(seed: int, tier: str = "quick") -> Dict[str, Any]:
           "config": cfg, "feats": {"twopath": True, "deeptail": True}}
     repair_cycles(sc, rng)
     return sc
+
+
+# ---------------------------------------------------------------------------------
+# C06: two (sibling or nested) groups, each with a legal weak loop, and crossings between the loops:
+# the big cycle through both groups is resolved only if one of the crossings is time-shifted
+def gen_sibling_loops(seed: int, tier: str = "quick") -> Dict[str, Any]:
+    rng = random.Random(sub_seed(seed, "sibloops"))
+    shape = rng.choice(["siblings", "siblings", "siblings_in_group", "nested"])
+    if shape == "siblings":
+        groups, g1, g2 = [None, 0, 0], 1, 2
+    elif shape == "siblings_in_group":
+        groups, g1, g2 = [None, 0, 1, 1], 2, 3
+    else:
+        groups, g1, g2 = [None, 0, 1], 1, 2
+    def mk(sid, g):
+        return {"sid": sid, "type": "hybrid", "group": g, "n_ent": 2, "meta_style": rng.choice([0, 0, 1, 2]),
+                "transport": "gated", "beh": {"bseed": rng.randrange(1 << 30), "p_self": 0.0, "p_out": 0.5, "loop_len": 1}}
+    sims = [mk("D", g1), mk("X", g1), mk("P", g2), mk("S", g2)]
+    def conn(a, b, shift=0, weak=False, de=0):
+        c = {"src": a, "se": 0, "dst": b, "de": de, "pairs": [[rng.choice(["p_out", "e_out"]), "t_in"]],
+             "shift": shift, "weak": weak}
+        return c
+    conns = [conn(0, 1, weak=True), conn(1, 0), conn(2, 3, weak=True), conn(3, 2)]
+    k1 = rng.choice([0, 0, 1])
+    k2 = rng.choice([0, 0, 1])
+    conns.append(conn(1, 2, shift=k1, de=1))        # X -> P
+    if rng.random() < 0.85:
+        conns.append(conn(3, 0, shift=k2, de=1))    # S -> D
+    if rng.random() < 0.3:
+        # an outside simulator on one of the crossings
+        sims.append(mk("O", 0))
+        conns[4] = conn(1, 4)
+        conns.append(conn(4, 2, shift=k1, de=1))
+    rng.shuffle(conns)
+    cfg = {"cache": rng.random() < 0.5, "lazy": rng.random() < 0.5, "debug": False, "mli": 6,
+           "start_seed": None, "connect_seed": None, "order_seed": None}
+    return {"groups": groups, "sims": sims, "conns": conns, "until": rng.choice([1, 2]), "config": cfg}
